@@ -292,8 +292,13 @@ def attach_store(world, path, **kw):
 def open_view(path):
     """a read-mode view; artap never closes its connections, garbage collection does"""
     from artap.problem import ProblemViewDataStore
-    with quiet():
-        return ProblemViewDataStore(database_name=path)
+    from artap.individual import Individual
+    saved = Individual.counter      # from_dict builds Individuals: reading must not shift the ids of the run under test
+    try:
+        with quiet():
+            return ProblemViewDataStore(database_name=path)
+    finally:
+        Individual.counter = saved
 
 
 KEEP_LOG = False
